@@ -4,7 +4,6 @@
 From Coq Require Import String List Bool ZArith.
 Require Import SV.Base.Json SV.Model.Kinds SV.Model.Syntax SV.Model.Expand SV.Model.Sem SV.Model.Lib.
 Require Import SV.Facts.SemFacts SV.Facts.WrapperFacts SV.Facts.RemoteFacts SV.Facts.LibFacts.
-Require Import SV.Model.Imp SV.Model.GenImp SV.Facts.ImpFacts SV.Facts.BuilderRefine.
 Import ListNotations.
 Open Scope string_scope.
 
@@ -54,25 +53,6 @@ Theorem c10_instantiate_builder : forall msg code steps salt,
   end.
 Proof. exact ib_build_spec. Qed.
 
-(* the same statement about the builder AS TRANSLATED FROM THE CURRENT RUST SOURCE (GenImp.builder_program, regenerated
-   from sylvia/src/builder/instantiate.rs on every run), at the level of Rust values: `new`, any chain of setters (each
-   applied by the translated method to the value the previous one returned), then `build` / `build2` *)
-Theorem c10_translated_instantiate_builder : forall d msg code steps salt,
-  exists v0 v,
-    calls builder_program (S d) "InstantiateBuilder::new" [msg; code] (CVal v0) /\
-    chain d v0 steps v /\
-    calls builder_program (S d)
-          (match salt with None => "InstantiateBuilder::build" | Some _ => "InstantiateBuilder::build2" end)
-          (v :: match salt with None => [] | Some s => [s] end)
-          (CVal (let common := [("code_id", code); ("msg", msg); ("admin", vopt (option_map VStr (b_last_admin steps None)));
-                                ("label", VStr (match b_last_label steps None with Some l => l | None => "" end));
-                                ("funds", b_last_funds steps (VArr []))] in
-                 match salt with
-                 | None => VRec "WasmMsg::Instantiate" common
-                 | Some s => VRec "WasmMsg::Instantiate2" (common ++ [("salt", s)])
-                 end)).
-Proof. exact translated_instantiate_builder. Qed.
-
 Check c10_body_routes_to_the_same_method.
 
 Example c10_example :
@@ -83,4 +63,3 @@ Proof. reflexivity. Qed.
 Print Assumptions c10_body_routes_to_the_same_method.
 Print Assumptions c10_executor_builder.
 Print Assumptions c10_instantiate_builder.
-Print Assumptions c10_translated_instantiate_builder.
